@@ -21,6 +21,7 @@ class Serializer(object):
         self.__currentID = 0
         self.__transmissions = {}
         self.__incomingTransmissionFile = None
+        self.__incomingTransmissionData = None
         self.__inMemorySerializedData = None
         self.__serializer = serializer
         self.__deserializer = deserializer
@@ -102,16 +103,18 @@ class Serializer(object):
             else:
                 self.__pid = -2
 
-    def deserialize(self):
+    def deserialize(self, incoming=False):
+        # incoming: the completely received, not yet accepted snapshot instead of the stored one
         if self.__fileName is None:
-            with BytesIO(self.__inMemorySerializedData) as io:
+            with BytesIO(self.__incomingTransmissionData if incoming else self.__inMemorySerializedData) as io:
                 with gzip.GzipFile(fileobj=io, mode='rb') as g:
                     return pickle.load(g)
 
+        fileName = self.__incomingTransmissionData if incoming else self.__fileName
         if self.__deserializer is not None:
-            return (None,) + self.__deserializer(self.__fileName)
+            return (None,) + self.__deserializer(fileName)
         else:
-            with open(self.__fileName, 'rb') as f:
+            with open(fileName, 'rb') as f:
                 with gzip.GzipFile(fileobj=f) as g:
                     return pickle.load(g)
 
@@ -168,7 +171,8 @@ class Serializer(object):
                 return False
             self.__incomingTransmissionFile += pickle.to_bytes(data)
             if isLast:
-                self.__inMemorySerializedData = self.__incomingTransmissionFile
+                # Complete, but not the stored snapshot yet: the caller looks at it first (acceptTransmission)
+                self.__incomingTransmissionData = self.__incomingTransmissionFile
                 self.__incomingTransmissionFile = None
                 return True
             return False
@@ -195,14 +199,20 @@ class Serializer(object):
         if isLast:
             self.__incomingTransmissionFile.close()
             self.__incomingTransmissionFile = None
-            self.__stopSerializing()
-            try:
-                atomicReplace(tmpFile, self.__fileName)
-            except:
-                logger.exception('Failed to rename temporary incoming transition file')
-                return False
+            # Complete, but not the stored snapshot yet: the caller looks at it first (acceptTransmission)
+            self.__incomingTransmissionData = tmpFile
             return True
         return False
+
+    def acceptTransmission(self):
+        """The completely received snapshot becomes the stored one. Not before the receiver has decided to
+        install it: a stale or unreadable one must not replace a newer stored snapshot."""
+        if self.__fileName is None:
+            self.__inMemorySerializedData = self.__incomingTransmissionData
+        else:
+            self.__stopSerializing()
+            atomicReplace(self.__incomingTransmissionData, self.__fileName)
+        self.__incomingTransmissionData = None
 
     def __stopSerializing(self):
         # A dump child that is still writing holds an older state than the snapshot just received:
